@@ -50,6 +50,9 @@ _FOREIGN = {'masked_array'}
 _CLASSES = ['Series', 'Frame', 'FrameHE', 'SeriesHE', 'Index', 'IndexDate', 'IndexHierarchy', 'IndexYearMonth']
 
 
+TECHNIQUE = 'runtime monitoring: call-history checker (random public-interface histories; after every call every live container is re-snapshotted incl. label lookups, and every reachable array is probed for writeability) + caller-alias, grow-only-alias and pickle/deepcopy probes'
+
+
 def probes(ctx):
     return [{'t': 'history', 'cls': 'Index', 'kind': 'int', 'labels': [1, 5, 9], 'seed': 1, 'ncalls': 1, 'attrs': ['iloc_searchsorted']}]
 
